@@ -508,6 +508,20 @@ impl Dom for NestedE {
     }
 }
 
+/// a zero-sized type whose encoding is NOT empty (one variant => discriminant byte 0x00)
+#[derive(Serialize, Deserialize, Debug, PartialEq, Clone, Copy)]
+pub enum OneUnit {
+    Only,
+}
+impl Dom for OneUnit {
+    fn dom() -> Vec<Self> {
+        vec![OneUnit::Only]
+    }
+    fn biteq(&self, _: &Self) -> bool {
+        true
+    }
+}
+
 macro_rules! big_enum {
     ($name:ident; $($v:ident)*) => {
         #[derive(Serialize, Deserialize, Debug, PartialEq, Clone, Copy)]
@@ -551,5 +565,6 @@ pub fn for_each_owned_type<V: OwnedVisitor>(v: &mut V) {
         Box<u64>, Box<NamedS>,
         UnitS, NewT, TupS, EmptyTupS, EmptyNamedS, NamedS, FloatS, NestedS, MapS, GenericS<u8>, GenericS<Vec<i16>>, GenericS<SmallE>,
         SmallE, NestedE, E130, Vec<SmallE>, Option<NestedE>, (SmallE, NamedS),
+        OneUnit, (OneUnit, OneUnit), [OneUnit; 3], Option<OneUnit>, Vec<OneUnit>,
     );
 }
